@@ -7,9 +7,12 @@ Processes
   `create` a new empty file (a fresh inode) at the path;
 * (notify) the **kernel + fsnotify goroutine** of `startWatcher`: every file operation puts an
   event into the queue `evq`; the goroutine takes one event at a time and does a NON-BLOCKING send
-  on one of the two buffered channels (`writeSignalNonBlock`): Write → `eventWrite`, Remove →
-  `eventDelete`, Create → `eventWrite`, anything else (Rename, Chmod, other files of the directory) →
-  nothing.  A channel is a token count bounded by its capacity, so signals coalesce;
+  on the buffered channels (`writeSignalNonBlock`): Write → `eventWrite`, Remove → `eventDelete`,
+  Create → `eventWrite` and, when `ReOpen` is set, also `eventDelete` (a file may have been renamed ONTO
+  the path over the followed one – there is no Remove event then; the handler of the delete signal
+  compares the open file with the path), anything else (Chmod, other files of the directory) → nothing;
+  Rename of the followed name: `Rare.Model.C15Rename`.  A channel is a token count bounded by its
+  capacity, so signals coalesce;
 * the **reader**: the consumer calling `Read` again and again.
   notify.go: `reading` = at the top of the `for` (about to `s.f.Read`), `selecting` = in the
   `select`; poller.go: `attempt i` = about to do read attempt `i` of the inner `for`, `check` = about
@@ -90,7 +93,7 @@ structure NSt (β : Type) where
 def dispatch1 (cfg : NCfg) (s : NSt β) : Ev → NSt β
   | .write => { s with pw := sendNB cfg.capW s.pw }
   | .remove => { s with pd := sendNB cfg.capD s.pd }
-  | .create => { s with pw := sendNB cfg.capW s.pw }
+  | .create => { s with pw := sendNB cfg.capW s.pw, pd := if cfg.reopen then sendNB cfg.capD s.pd else s.pd }
   | .other => s
 
 def NSt.closeFile (s : NSt β) : NSt β := { s with f := none, hist := s.hist ++ s.f.toList }
